@@ -178,7 +178,7 @@ def check(repo, rep):
                     left_is_cache = left[0] == 'loopvar' or (left[0] == 'sub')
                     right_is_new = right[0] == 'call' and right[1][0] == 'attr' and right[1][2] == 'read'
                     rep.ob('overlap block = tail of the previous block followed by the new samples (in this order)', left_is_cache and right_is_new, W(y[3]),
-                           '%s:block-order' % g.name, 'yielded block is %s' % show(t)[:160])
+                           '%s:block-order' % g.name, 'yielded block is %s' % show(t)[:160], loop_rule=True)
                     # the cache after this iteration
                     cachevars = [k for k, v in l.env.items() if isinstance(v, tuple) and v[0] == 'sub' and v[1] == t]
                     if not cachevars:
@@ -190,7 +190,7 @@ def check(repo, rep):
                         lo = sl[1] if sl[0] == 'slice' else None
                         ok = sl[0] == 'slice' and sl[2] is None and lo is not None and hopbytes(lo)
                         rep.ob('overlap cache drops exactly hop_size * sample_width * channels bytes', ok, W(y[3]), '%s:cache-slice' % g.name,
-                               'cache is %s' % show(v)[:200], sample=dict(cache=show(v)[:160]))
+                               'cache is %s' % show(v)[:200], sample=dict(cache=show(v)[:160]), loop_rule=True)
             # initial cache (before the loop): first block [hop_bytes:]
             if idx_loop is not None:
                 for k, v in l.env.items():
